@@ -393,8 +393,23 @@ def run(F, rep):
     if not pub or len(ivc) < 2:
         raise AnalysisBroken('analyseModel: publication of aiv2avMappings / internalVariable calls not found')
     cfg5 = am.cfg()
+    from engines import _loop_of_var as _lov5
     for c in ivc:
         late = _cr5(cfg5, pub[0], c)
+        if late:
+            # the one legitimate late use: the dependencies DECLARED for an external variable were recorded before the analysis re-pointed the representatives
+            # of the classes; they have no "own unknown" bookkeeping and must be resolved again by class (C20.D3).  Recognised structurally: the argument is the
+            # element of a loop over AnalyserInternalVariable::mDependencies
+            a0 = nth_arg(c, 0)
+            from engines import walk_x as _wx5
+            srcs5 = []
+            for x_ in (_wx5(am, a0) if a0 is not None else []):
+                srcs5.append(x_)
+                if x_.get('k') == 'Ref' and x_.get('d') in _lov5(am):
+                    srcs5 += list(walk(role(_lov5(am)[x_['d']], 'range')))
+            if any(m_.get('k') == 'Member' and (m_.get('q') or '') == 'libcellml::AnalyserInternalVariable::mDependencies' for m_ in srcs5):
+                rep.ok('C05.U2', 'analyseModel|%s@declared dependencies of an external variable' % render(c)[:40], am.where(c), 're-resolution of recorded external dependencies (see C20.D3)')
+                continue
         rep.check(not late, 'C05.U2', 'analyseModel|%s@%d' % (render(c)[:40], sum(1 for x in ivc if x.get('l', 0) < c.get('l', 0))), am.where(c), '`%s` is evaluated after the public variables have been created' % render(c)[:60], 'before publication')
 
     # ------------------------------------------------------------------ V1: an internal variable stays inside its equivalence class
@@ -447,9 +462,8 @@ def run(F, rep):
                 continue
             n_n1 += 1
             tgt = render(a['c'][0]['c'][0]) if a['c'][0].get('c') else 'this'
-            rhs = a['c'][1]
-            while rhs.get('k') in ('Paren', 'Cast') and len(rhs.get('c', [])) == 1:
-                rhs = rhs['c'][0]
+            from engines import value_of as _vo5
+            rhs = _vo5(g, a['c'][1])
             how = None
             if rhs.get('k') == 'Un' and rhs.get('op') == '++':
                 fx = _fx5(F, g, a) or set()
